@@ -148,11 +148,23 @@ func (b *CommonBlockchainObserver) IsTxInRange(txId string, startBlock, endBlock
 }
 
 func (b *CommonBlockchainObserver) IsTxInMempoolOrRange(txId string, startHeight, vout uint32) (string, uint32, error) {
+	rawTx, firstSeen, _, err := b.IsTxInMempoolOrRangeAt(txId, startHeight, vout)
+	return rawTx, firstSeen, err
+}
+
+// IsTxInMempoolOrRangeAt is IsTxInMempoolOrRange and additionally returns the
+// chain height the answer was determined at (0 if it could not be read).
+func (b *CommonBlockchainObserver) IsTxInMempoolOrRangeAt(txId string, startHeight, vout uint32) (string, uint32, uint32, error) {
 	ctmp, err := b.blockchain.GetBlockHeight()
 	if err != nil {
-		return "", 0, fmt.Errorf("could not get current block height: %v", err)
+		return "", 0, 0, fmt.Errorf("could not get current block height: %v", err)
 	}
-	current := uint32(ctmp)
+	tip := uint32(ctmp)
+	rawTx, firstSeen, err := b.isTxInMempoolOrRangeAt(txId, startHeight, vout, tip)
+	return rawTx, firstSeen, tip, err
+}
+
+func (b *CommonBlockchainObserver) isTxInMempoolOrRangeAt(txId string, startHeight, vout, current uint32) (string, uint32, error) {
 	bHash, err := b.blockchain.GetBlockHash(current)
 	if err != nil {
 		return "", 0, fmt.Errorf("could not get current block hash: %v", err)
